@@ -64,6 +64,12 @@ def mk_func(shape, a, b, with_defaults):
     return f
 
 
+def _int_const(v):
+    def f(x, a=v):
+        return a
+    return f
+
+
 def mk_outer(a0):
     def outer(x, c=0.5, inner_of_x=None):
         return c * inner_of_x(x) + 0.5 * a0
@@ -96,6 +102,11 @@ def build(case):
             d = DependenceFunction(mk_func(shape, a, b, False))
             d.parameters = {"a": a, "b": b} if shape != "const" else {"a": a}
             theta_funcs[n] = (lambda g, s=shape, a=a, b=b: raw(s, g, a, b))
+        elif variant == "int_constant":
+            # the dependence function returns a python int (whatever the conditioning value is)
+            ival = max(1, int(round(a + 1)))
+            d = DependenceFunction(_int_const(ival))
+            theta_funcs[n] = (lambda g, v=ival: float(v))
         elif variant == "partial_defaults":
             d = DependenceFunction(mk_partial(shape if shape != "const" else "dec", b))
             theta_funcs[n] = (lambda g, s=(shape if shape != "const" else "dec"), b=b: raw(s, g, 1.0, b))
@@ -255,6 +266,8 @@ def main(ctx):
             for dep_names in itertools.combinations(names, k):
                 for assign in itertools.product(shapes, repeat=k):
                     variants = ["signature", "assigned"]
+                    if assign == ("const",) * k and k == 1:
+                        variants += ["int_constant"]
                     if assign == ("inc",) * k:
                         variants += ["chained"]
                         if any(r in ("loc", "mu", "vmu") for n_, r in zip(names, roles) if n_ in dep_names):
